@@ -99,6 +99,29 @@ def wellformed_twice(text):
     return raw
 
 
+def obtain(root, rnd, seed):
+    """The tree handed to an exporter need not be a freshly built root: a copy, a branch taken out with remove_child
+    (its stale parent link stays), or a branch exported where it hangs are trees just as well."""
+    how = seed % 4
+    inner = [n for n in tables_walk(root) if n is not root]
+    if how == 0 or not inner:
+        return root, "built root"
+    b = rnd.choice(inner)
+    b.tail = None                        # the quantifier: no tail on the root of what is exported
+    if how == 1:
+        return b.copy(), "copy of a branch"
+    if how == 2:
+        b.parent.remove_child(b)
+        return b, "branch detached with remove_child"
+    return b, "branch exported in place"
+
+
+def tables_walk(n):
+    yield n
+    for c in n.children:
+        yield from tables_walk(c)
+
+
 def w_general(seeds):
     from metapype.model import metapype_io
     evs = []
@@ -106,8 +129,9 @@ def w_general(seeds):
         Node.store.clear()
         rnd = random.Random(seed)
         root = rtree(rnd, 320 if seed % 100 == 99 else rnd.randint(1, 25))       # now and then a big tree (wide and deep parts)
+        root, how = obtain(root, rnd, seed)
         t = xmlobs.tree_proj(root)
-        desc = {"exporter": "metapype_io.to_xml", "seed": seed}
+        desc = {"exporter": "metapype_io.to_xml", "seed": seed, "tree": how}
         try:
             text = metapype_io.to_xml(root)
         except Exception as e:  # noqa: BLE001
@@ -131,8 +155,9 @@ def w_eml(seeds):
         Node.store.clear()
         rnd = random.Random(seed)
         root = rtree(rnd, 320 if seed % 100 == 99 else rnd.randint(1, 25), eml=True)
+        root, how = obtain(root, rnd, seed)
         t = xmlobs.tree_proj(root)
-        desc = {"exporter": "export.to_xml", "seed": seed}
+        desc = {"exporter": "export.to_xml", "seed": seed, "tree": how}
         try:
             text = export.to_xml(root)
         except Exception as e:  # noqa: BLE001
